@@ -61,6 +61,22 @@ ReadVerdict(rows, n, r0, r1, c0, c1, got) ==
      ELSE IF \E r \in 1..Len(want) : Len(Cells(got[r])) > Len(want[r]) \/ pad(Cells(got[r]), Len(want[r])) # want[r] THEN "ReadShowsCells"
      ELSE "ok"
 
+\* fsarray(strings, width): width = -1 when omitted.  The array's rows must show the strings; a string longer
+\* than an explicit width is an error.
+MakeVerdict(strings, width, raised, rows, ncols) ==
+  LET maxlen == IF strings = <<>> THEN 0 ELSE CHOOSE m \in {VLen(strings[k]) : k \in 1..Len(strings)} : \A k \in 1..Len(strings) : VLen(strings[k]) <= m
+      w == IF width = -1 THEN maxlen ELSE width
+  IN IF width # -1 /\ maxlen > width THEN (IF raised THEN "ok" ELSE "TooLongStringMustRaise")
+     ELSE IF raised THEN "ValidConstructionRaised"
+     ELSE IF ncols # w THEN "MakeWidth"
+     ELSE IF Len(rows) # Len(strings) THEN "MakeHeight"
+     ELSE IF ~RowsFit(rows, w) THEN "RowWiderThanArray"
+     ELSE IF ShowGrid(rows, w) # [k \in 1..Len(strings) |-> Show(strings[k], w)] THEN "RowsShowTheStrings"
+     ELSE "ok"
+
+\* reading one row back: a[r] must show what the row shows
+RowReadVerdict(rows, n, r, got) == IF Show(got, n) # Show(rows[r + 1], n) THEN "RowReadShowsCells" ELSE "ok"
+
 (* ---------------- L2 ---------------- *)
 Spaces(k) == << <<[j \in 1..k |-> 32], NoAtts>> >>
 \* FmtStr.setslice_with_length(start, end, fs, length): <<status, row>>
